@@ -7,6 +7,14 @@ CLAIMED = {
    note="Trusted: Coq kernel, ExtrOcamlBasic extraction + driver.ml (cross-checked against vm_compute on a sample each run), the harness oracle; diff-match-patch and Python re are not modelled (contract checked at run time).",
    technique="Coq theorem over a hand-written Gallina model + exhaustive model/implementation correspondence", ref="5 C13"),
 }
+CLAIMED['C17'] = dict(
+   text="Proof: an effect-skeleton language with an oracle-driven semantics (which effect raises, which branch runs) and a static checker are defined in Gallina (Effects.v); safe_sound / safe_cli_sound prove that an accepted skeleton never raises out of a tool, never writes to stdout and leaves the designated output untouched whenever it reports an error, for EVERY fault/branch oracle. On every run harness/skel.py regenerates the skeleton of every MCP tool and CLI handler from server.py / cli.py (fail-closed Python-ast translator) and Props/C17.v re-proves that the checker accepts them (vm_compute). The dynamic half runs every tool/command in child interpreters with the real server wiring on valid/missing/non-DOCX/corrupt inputs and path configurations with a fault at the k-th internal call for every k, checks return values, bytes on fd 1, exit codes, directory snapshots, default output names and equality with the library result, and validates the translator by embedding each observed call order in the skeleton.",
+   note="Trusted: Coq kernel; the translator's classification tables and abstractions (listed in skel.py); FM1 (a write of computed bytes does not fail; its negation is finding D22); OS file semantics; the mcp stub. Path derivation, exit codes and stdout silence of library code are checked dynamically only.",
+   technique="Coq-proved sound checker over effect skeletons regenerated from source + exhaustive k-th-call fault injection", ref="5 C17")
+CLAIMED['C18'] = dict(
+   text="Proof: crash/raise semantics of `adeu init` over an abstract world (config/backup contents Orig|New|Junk) where every effect can complete, raise half-way, or the process can die before or in the middle of it; crash_safe_sound proves for ANY initial world and ANY oracle that a skeleton accepted by the checker keeps the complete previous configuration in the file or in the backup. The skeleton of handle_init is regenerated from cli.py on every run and Props/C18.v re-proves its acceptance. Dynamically the real handle_init runs in forked children for every prior state (absent, empty, valid, invalid JSON, non-object, unexpected shapes, random objects) x both modes with a crash-before / crash-in-the-middle / OSError injected at every file-system call; the directory is inspected afterwards; the success half (valid JSON, only the adeu entry changes, idempotent) is checked on every fault-free run.",
+   note="Trusted: Coq kernel; translator skel.py (validated by effect traces each run); abstraction of file contents; OS semantics of open/copy2/write; Python json is not modelled (success half is dynamic only).",
+   technique="Coq-proved sound crash-safety checker over the skeleton regenerated from source + crash injection at every file-system call", ref="5 C18")
 PENDING = {}
 def main():
     props = [json.loads(l) for l in open(os.path.join(V, 'properties.jsonl'))]
